@@ -31,7 +31,9 @@ let () = iter_lines (fun line ->
     let r = match Vp8lSpec.decode (zbytes_of_hex hex) with
       | Res.Ok im -> Printf.sprintf "OK %d %d %s" (int_of_z im.Vp8lSpec.i_w) (int_of_z im.Vp8lSpec.i_h) (fnv_px im.Vp8lSpec.i_px)
       | _ -> "ERR" in
-    Printf.printf "I %s S %s\n" r r
+    (* C01: the specification decoder is the model of the decoder half of the round trip (correspondence
+       only: no S field; the property itself is decided by the Go round trip against the source pixels) *)
+    Printf.printf "I %s\n" r
   | ["replan"; hex] ->
     (* recover the plan the stream is the emission of; check it against the proved theorem's hypothesis *)
     let bytes = zbytes_of_hex hex in
